@@ -280,6 +280,11 @@ class Program:
                 for tgt in stmt.targets:
                     if isinstance(tgt, ast.Name):
                         mod.assigns[tgt.id] = stmt.value
+                    elif isinstance(tgt, (ast.Tuple, ast.List)) and isinstance(stmt.value, (ast.Tuple, ast.List)) and len(tgt.elts) == len(stmt.value.elts):
+                        # `A, B = 0, 1`: each name is bound to its own element
+                        for t_, v_ in zip(tgt.elts, stmt.value.elts):
+                            if isinstance(t_, ast.Name) and not isinstance(v_, ast.Starred):
+                                mod.assigns[t_.id] = v_
             elif isinstance(stmt, ast.AnnAssign) and isinstance(stmt.target, ast.Name) and stmt.value is not None:
                 mod.assigns[stmt.target.id] = stmt.value
 
